@@ -1,5 +1,6 @@
 import Uquic.Oracle.Frame
 import Uquic.Model.Amp.Token
+import Uquic.Model.Amp.RetryGlue
 import Uquic.Spec.TokenMon
 
 open Uquic.Oracle Uquic.Model.Tok Uquic.Spec.TokenMon
@@ -205,6 +206,73 @@ def step (s : TSt) (op impl : String) : TSt × StepOut :=
         | .panic => ("PANIC", "initial:panic")
       let implVerified := implHead == "proceed" && field iw "av=" == some "1"
       let fails := judge kid b (some a) (maxAge, Uquic.Spec.TokenMon.retryLimit (intOf idle)) (if implVerified then "ok" else "err") implVerified
+      return (s, { model := withTail text, tags := [tag], fails := fails })
+  | ["decode2", kid, tokA, tokB] =>
+    match resolveTok s tokA, resolveTok s tokB with
+    | some a, some b => Id.run do
+      let kid := natOf kid
+      let da := decodeToken (cryptoOf s.log) (codecOf s.log) (secretOf kid) a
+      let db := decodeToken (cryptoOf s.log) (codecOf s.log) (secretOf kid) b
+      -- DecodeToken is a pure function of (key, bytes): the first result reads the same after the second call
+      let model := s!"A {fmtDecoded da true} ; B {fmtDecoded db true} ; A2 {fmtDecoded da true}"
+      let mut fails : List (String × String × String) := []
+      match impl.splitOn " ; " with
+      | [pa, _, pa2] =>
+        if (pa.drop 2).toString != (pa2.drop 3).toString then
+          fails := fails ++ [("decoded_token_immutable", "-", s!"the token returned by the first DecodeToken reads [{(pa2.drop 3).toString}] after a second DecodeToken; it read [{(pa.drop 2).toString}]")]
+      | _ => pure ()
+      let same := a == b
+      let tag := match da, db with
+        | .ok ta, .ok tb => if same then "decode2:same" else if ta.isRetryToken && tb.isRetryToken then "decode2:retry-retry" else if ta.isRetryToken then "decode2:retry-newtoken" else "decode2:newtoken-any"
+        | .ok _, _ => "decode2:ok-fail"
+        | _, _ => "decode2:fail-any"
+      return (s, { model := model, tags := [tag], fails := fails })
+    | _, _ => (s, { model := "skip" })
+  | ["cinit", kid, tok, addr, wr, age, idle] =>
+    match resolveTok s tok, parseAddr addr with
+    | none, _ => (s, { model := "skip" })
+    | _, none => (s, { model := "bad-op" })
+    | some b, some a => Id.run do
+      let kid := natOf kid
+      let maxAge := if intOf age == 0 then Uquic.Gen.AmpToken.defaultMaxTokenAge else intOf age
+      let retryAge := maxRetryTokenAge (intOf idle)
+      let dcid : Bytes := [1, 2, 3, 4, 5, 6, 7, 8]
+      let cfg : Uquic.Model.RetryGlue.Cfg := { E := cryptoOf s.log, C := codecOf s.log, secret := secretOf kid, maxTokenAge := maxAge, maxRetryAge := retryAge }
+      let pkt : Uquic.Model.RetryGlue.IPkt := { hdrToken := b, hdrDCID := dcid, remote := a, now := now, wantsRetry := wr == "1" }
+      let out := Uquic.Model.RetryGlue.decide1 cfg pkt
+      -- the glue model: the server state after this one packet, the new connection read through the heap
+      let srv := Uquic.Model.RetryGlue.Srv.initial .fresh cfg {} pkt
+      let (text, tag) := match out, srv.conns.getLast? with
+        | .invalidToken, _ => ("drop", "cinit:invalid-retry-token")
+        | .retry, _ => ("retry", "cinit:retry")
+        | .panic, _ => ("PANIC", "cinit:panic")
+        | .proceed .., none => ("noconn", "cinit:noconn")
+        | .proceed .., some c =>
+          let (o, r) := Uquic.Model.RetryGlue.paramsAtUse srv c
+          (s!"conn av={if c.av then 1 else 0} odcid={bytesToHex o} rscid={match r with | some x => bytesToHex x | none => "none"} rtt={c.rtt} lim={if c.h.isAmplificationLimited then 1 else 0} val={if c.h.validated then 1 else 0}",
+           if c.av then (if r.isSome then "cinit:validated-retry" else "cinit:validated-newtoken") else "cinit:unvalidated")
+      let isConn := implHead == "conn"
+      let f1 (k : String) : Bool := field iw k == some "1"
+      -- the connection starts WITHOUT the 3x limit: by its own state, by its behaviour, or by the flag it was given
+      let unlimited := isConn && (f1 "val=" || f1 "av=" || field iw "lim=" == some "0")
+      let mut fails := judge kid b (some a) (maxAge, Uquic.Spec.TokenMon.retryLimit (intOf idle)) (if unlimited then "ok" else "err") unlimited
+      if unlimited && fails.isEmpty && (issuedExactly s kid b).isNone then
+        fails := fails ++ [("conn_unlimited_without_address_proof", "-", "a connection starts validated although no token was presented that this key issued")]
+      if isConn && !unlimited then
+        -- an unvalidated connection must not be able to send before a byte is credited to it
+        if field iw "lim=" ≠ some "1" then
+          fails := fails ++ [("unvalidated_conn_starts_limited", "-", "SendMode of a fresh unvalidated server connection is not SendNone")]
+      if isConn && (field iw "clientinfo=").isSome then
+        fails := fails ++ [("clientinfo_matches_conn", "-", "ClientInfo.AddrVerified differs from the clientAddressValidated the connection was created with")]
+      -- a connection created for an unmodified Retry token carries exactly the connection IDs the token was issued with
+      match issuedExactly s kid b with
+      | some e =>
+        match e.fields with
+        | some f =>
+          if isConn && f.isRetryToken && f1 "av=" && (field iw "odcid=" ≠ some (bytesToHex f.odcid) || field iw "rscid=" ≠ some (bytesToHex f.rscid)) then
+            fails := fails ++ [("retry_cids_changed", "-", s!"connection created with odcid={field iw "odcid="} rscid={field iw "rscid="}; the token was issued with odcid={bytesToHex f.odcid} rscid={bytesToHex f.rscid}")]
+        | none => pure ()
+      | none => pure ()
       return (s, { model := withTail text, tags := [tag], fails := fails })
   | ["dkey", _inst] => Id.run do
     -- a Transport without TokenGeneratorKey draws a fresh random key: never all-zero, never equal to another key
